@@ -266,7 +266,6 @@ fn op_point<N: Fld>(p: &OpPt) -> Outcome {
     let sum: Vec<C> = (0..l).map(|k| coef(&a, k) + coef(&b, k)).collect();
     let dif: Vec<C> = (0..l).map(|k| coef(&a, k) - coef(&b, k)).collect();
     let s = if N::COMPLEX { C::new(-1.5, 0.25) } else { C::new(-1.5, 0.0) };
-    let sn = N::from_c(s);
     let pa = || mk::<N>(&a);
     let pb = || mk::<N>(&b);
     let ctx = |form: &str| format!("{} on deg {} / deg {} patterns {}/{} {}", form, p.m, p.n, PATTERNS[p.pat], PATTERNS[(p.pat + 2) % 6], N::NAME);
@@ -305,27 +304,39 @@ fn op_point<N: Fld>(p: &OpPt) -> Outcome {
     chk("&P * &P", "polynomial::Mul", g(|| &pa() * &pb()), &exact, noise, &mut o);
     chk("P *= P", "polynomial::MulAssign", g(|| { let mut x = pa(); x *= pb(); x }), &exact, noise, &mut o);
     chk("P *= &P", "polynomial::MulAssign", g(|| { let mut x = pa(); x *= &pb(); x }), &exact, noise, &mut o);
-    // scalar forms
-    let mut sadd = a.clone();
-    sadd[0] += s;
-    let mut ssub = a.clone();
-    ssub[0] -= s;
-    let smul: Vec<C> = a.iter().map(|c| c * s).collect();
-    let sdiv: Vec<C> = a.iter().map(|c| c / s).collect();
+    // scalar forms, for a generic scalar and for the special ones a shortcut could be keyed on (0, 1, -1, a power of
+    // two and its reciprocal, and for complex polynomials the units i and -i and a scalar of modulus exactly 1)
+    let mut scalars = vec![s, C::new(1.0, 0.0), C::new(-1.0, 0.0), C::new(0.0, 0.0), C::new(2.0, 0.0), C::new(0.5, 0.0)];
+    if N::COMPLEX {
+        scalars.extend([C::new(0.0, 1.0), C::new(0.0, -1.0), C::new(0.6, -0.8)]);
+    }
+    for s in scalars {
+        let sn = N::from_c(s);
+        let tag = |f: &str| format!("{} [s = {}]", f, s);
+        let mut sadd = a.clone();
+        sadd[0] += s;
+        let mut ssub = a.clone();
+        ssub[0] -= s;
+        let smul: Vec<C> = a.iter().map(|c| c * s).collect();
+        let amax = a.iter().map(|c| c.norm()).fold(0.0, f64::max);
+        let t2 = 4.0 * EPS * amax * s.norm().max(if s.norm() > 0.0 { 1.0 / s.norm() } else { 0.0 });
+        chk(&tag("P + s"), "polynomial::Add<scalar>", g(|| pa() + sn), &sadd, 0.0, &mut o);
+        chk(&tag("&P + s"), "polynomial::Add<scalar>", g(|| &pa() + sn), &sadd, 0.0, &mut o);
+        chk(&tag("P += s"), "polynomial::AddAssign<scalar>", g(|| { let mut x = pa(); x += sn; x }), &sadd, 0.0, &mut o);
+        chk(&tag("P - s"), "polynomial::Sub<scalar>", g(|| pa() - sn), &ssub, 0.0, &mut o);
+        chk(&tag("&P - s"), "polynomial::Sub<scalar>", g(|| &pa() - sn), &ssub, 0.0, &mut o);
+        chk(&tag("P -= s"), "polynomial::SubAssign<scalar>", g(|| { let mut x = pa(); x -= sn; x }), &ssub, 0.0, &mut o);
+        chk(&tag("P * s"), "polynomial::Mul<scalar>", g(|| pa() * sn), &smul, t2, &mut o);
+        chk(&tag("&P * s"), "polynomial::Mul<scalar>", g(|| &pa() * sn), &smul, t2, &mut o);
+        chk(&tag("P *= s"), "polynomial::MulAssign<scalar>", g(|| { let mut x = pa(); x *= sn; x }), &smul, t2, &mut o);
+        if s.norm() > 0.0 {
+            let sdiv: Vec<C> = a.iter().map(|c| c / s).collect();
+            chk(&tag("P / s"), "polynomial::Div<scalar>", g(|| pa() / sn), &sdiv, t2, &mut o);
+            chk(&tag("&P / s"), "polynomial::Div<scalar>", g(|| &pa() / sn), &sdiv, t2, &mut o);
+            chk(&tag("P /= s"), "polynomial::DivAssign<scalar>", g(|| { let mut x = pa(); x /= sn; x }), &sdiv, t2, &mut o);
+        }
+    }
     let neg: Vec<C> = a.iter().map(|c| -c).collect();
-    let t2 = 4.0 * EPS * a.iter().map(|c| c.norm()).fold(0.0, f64::max) * s.norm().max(1.0 / s.norm());
-    chk("P + s", "polynomial::Add<scalar>", g(|| pa() + sn), &sadd, 0.0, &mut o);
-    chk("&P + s", "polynomial::Add<scalar>", g(|| &pa() + sn), &sadd, 0.0, &mut o);
-    chk("P += s", "polynomial::AddAssign<scalar>", g(|| { let mut x = pa(); x += sn; x }), &sadd, 0.0, &mut o);
-    chk("P - s", "polynomial::Sub<scalar>", g(|| pa() - sn), &ssub, 0.0, &mut o);
-    chk("&P - s", "polynomial::Sub<scalar>", g(|| &pa() - sn), &ssub, 0.0, &mut o);
-    chk("P -= s", "polynomial::SubAssign<scalar>", g(|| { let mut x = pa(); x -= sn; x }), &ssub, 0.0, &mut o);
-    chk("P * s", "polynomial::Mul<scalar>", g(|| pa() * sn), &smul, t2, &mut o);
-    chk("&P * s", "polynomial::Mul<scalar>", g(|| &pa() * sn), &smul, t2, &mut o);
-    chk("P *= s", "polynomial::MulAssign<scalar>", g(|| { let mut x = pa(); x *= sn; x }), &smul, t2, &mut o);
-    chk("P / s", "polynomial::Div<scalar>", g(|| pa() / sn), &sdiv, t2, &mut o);
-    chk("&P / s", "polynomial::Div<scalar>", g(|| &pa() / sn), &sdiv, t2, &mut o);
-    chk("P /= s", "polynomial::DivAssign<scalar>", g(|| { let mut x = pa(); x /= sn; x }), &sdiv, t2, &mut o);
     chk("-P", "polynomial::Neg", g(|| -pa()), &neg, 0.0, &mut o);
     chk("-&P", "polynomial::Neg", g(|| -&pa()), &neg, 0.0, &mut o);
     // operands that carry different zero tolerances, and a product whose leading coefficient lies between them: whatever
